@@ -186,7 +186,7 @@ fn main() {
         .extra
         .get("n")
         .and_then(|s| s.parse().ok())
-        .unwrap_or_else(|| tier.pick(cs.len() * 100, cs.len() * 1_500));
+        .unwrap_or_else(|| tier.pick(cs.len() * 400, cs.len() * 1_500));
     let filter = args.extra.get("family").cloned();
     // chunked so that the thorough tier never holds millions of case results at once
     let chunk = 20_000usize;
